@@ -39,6 +39,7 @@ struct Arena {
   int align_mode = 0;               // 0: data at 0 mod 32, 1: data at 16 mod 32, 2: alternating
   long alloc_count = 0;             // allocation points seen (for fault injection)
   long fail_at = -1;                // fail the allocation with this ordinal (0-based), -1: never
+  bool fault_fired = false;         // the injected failure actually happened
   bool count_scalar = false;        // scalar operator new also counts as an allocation point (C16)
   bool counting = true;             // allocation points are numbered (and faults injected) only while this is set: the harness
                                     // switches it on around library calls so that its own bookkeeping allocations do not count
@@ -50,11 +51,11 @@ struct Arena {
   void reset() {  // start a new episode: same addresses again
     init();
     VF_UNPOISON(base, top + 64 <= CAP ? top + 64 : CAP);
-    top = 0; blocks.clear(); alloc_count = 0; fail_at = -1; double_free = foreign_free = interior_free = 0; first_error.clear();
+    top = 0; blocks.clear(); alloc_count = 0; fail_at = -1; fault_fired = false; double_free = foreign_free = interior_free = 0; first_error.clear();
   }
   void* alloc(size_t n) {
     long ord = alloc_count;
-    if (counting) { alloc_count++; if (ord == fail_at) throw std::bad_alloc(); }
+    if (counting) { alloc_count++; if (ord == fail_at) { fault_fired = true; throw std::bad_alloc(); } }
     init();
     size_t RZ = 64;
     size_t start = (top + RZ + 31) & ~(size_t)31;            // 32-aligned
@@ -87,7 +88,7 @@ struct Arena {
     Block* b = find(p);
     if (!b) { foreign_free++; if (first_error.empty()) first_error = "delete[] of an address that is not an arena block"; return; }
     if (b->data != (char*)p) { interior_free++; if (first_error.empty()) first_error = "delete[] of an interior pointer (wrong ptr_offset)"; return; }
-    if (!b->live) { double_free++; if (first_error.empty()) first_error = "double delete[] of block " + std::to_string(b->id); return; }
+    if (!b->live) { double_free++; if (first_error.empty()) first_error = "double delete[] of a block"; return; }
     b->live = false;
     VF_POISON(b->data, b->size ? b->size : 1);
   }
@@ -119,7 +120,7 @@ void operator delete[](void* p) noexcept {
 void operator delete[](void* p, std::size_t) noexcept { operator delete[](p); }
 void* operator new(std::size_t n) {
   arena::Arena& a = arena::A();
-  if (a.active && a.count_scalar && a.counting && !a.internal) { long ord = a.alloc_count++; if (ord == a.fail_at) throw std::bad_alloc(); }
+  if (a.active && a.count_scalar && a.counting && !a.internal) { long ord = a.alloc_count++; if (ord == a.fail_at) { a.fault_fired = true; throw std::bad_alloc(); } }
   void* p = std::malloc(n ? n : 1); if (!p) throw std::bad_alloc(); return p;
 }
 void operator delete(void* p) noexcept { std::free(p); }
